@@ -5,6 +5,13 @@ V = "/verif"
 props = [json.loads(l) for l in open(V + "/properties.jsonl")]
 
 CLAIMED = {
+ "C06": dict(
+    text="TAINT-GUARD rule over the anchored parsers of untrusted data (superblock/descriptor open path, journal recovery and fast-commit replay, extent headers, directory blocks, xattr blocks and in-inode xattrs, inline data, dx count/limit, MMP, orphan file, qcow2 header, undo file): "
+         "values derived from fields of on-disk record types (through locals, struct copies, byte-order helpers and out-parameters) are followed to their uses as length, I/O count, allocation size, array index, pointer offset, divisor or shift count. "
+         "Two reference lists derived from the pinned tree and keyed semantically (function, sink class, source fields / canonical name-independent comparison shape; no text or line numbers) are enforced: every recorded sink that was dominated by a comparison on its value still is, "
+         "and every recorded ordering comparison on untrusted values is still present in its function with the same operands, constants and direction (56 sinks, 174 comparisons). "
+         "Decides that the bounds checks the parsers rely on are not removed, weakened or bypassed; does not decide absence of all memory errors, termination, or that each bound is the right number; a refactoring that moves a check into another function needs the reference regenerated (python3 -m rules.C06).",
+    ref="§4 C06", technique="static analysis: intraprocedural taint from on-disk record fields to sinks, control dependence, canonical guard shapes compared with a reviewed reference"),
  "C05": dict(
     text="GATED-EFFECT / WHO / GUARD rules over e2fsck passes 1-5, super.c and badblocks.c: each of ~200 call sites that change persistent metadata executes only after a problem was reported and its fix accepted "
          "(directly; through a local, struct field or context flag bit every non-zero store of which is itself gated; through a helper derived to return such an answer; or because every call site of the enclosing function, callbacks included, is gated), "
